@@ -21,9 +21,9 @@ func init() {
 		Level: "exploration",
 		Rule: "seeded histories of get/insert/remove/checkpoint/rollback/commit (<=28 ops per view) over <=4 keys with random base values, block-level pending changes made by earlier committed views, 1..3 successive views and up to 3 concurrent views (disjoint keys, as the executor guarantees) on one TState, base read errors injected at a chosen key; every result is compared with a stack-of-maps reference; " +
 			"non-trivial = the history contains a rollback or a remove/insert of the same key, or >=2 concurrent views; distinct = distinct (history, base, schedule) hashes",
-		Exec: c04,
-		Real: []string{"state/tstate TState and TStateView (GetValue, Insert, Remove, Rollback, OpIndex, Commit, ChangedKeys)", "keys.VerifyValue / NumChunks"},
-		Stub: []string{"base state.Immutable (map with injected read errors)", "goroutine scheduling for the concurrent views"},
+		Exec:        c04,
+		Real:        []string{"state/tstate TState and TStateView (GetValue, Insert, Remove, Rollback, OpIndex, Commit, ChangedKeys)", "keys.VerifyValue / NumChunks"},
+		Stub:        []string{"base state.Immutable (map with injected read errors)", "goroutine scheduling for the concurrent views"},
 		Assumptions: []string{"concurrent views touch disjoint keys (the executor's guarantee, checked separately as C08)"},
 	})
 }
